@@ -10,6 +10,7 @@ mod c05;
 mod c06;
 mod c13;
 mod c14;
+mod c15;
 mod c18;
 mod c19;
 mod genr;
@@ -39,6 +40,7 @@ fn main() {
         "c04" => c04::run(&args[2..]),
         "c13" => c13::run(&args[2..]),
         "c14" => c14::run(&args[2..]),
+        "c15" => c15::run(&args[2..]),
         "c18" => c18::run(&args[2..]),
         "c19" => c19::run(&args[2..]),
         "c19child" => c19::child(&args[2..]),
